@@ -164,7 +164,9 @@ def run(A, rep, tier):
     r = [x for x in walk_local(eq.node) if isinstance(x, ast.Return)]
     d = A.dnf(r[0].value, True, eq) if len(r) == 1 else []
     o = eq.params[1]
-    rep.check(d == [frozenset({("eq(%s.path,self.path)" % o, True), ("eq(%s.name,self.name)" % o, True)})], "HASH1", "eq on (path, name)", eq.node,
+    # the getters return the private fields (checked below), so `x.path` and `x._path` are the same value
+    dn = [frozenset((a.replace("._path", ".path").replace("._name", ".name"), p_) for a, p_ in c) for c in d]
+    rep.check(dn == [frozenset({("eq(%s.path,self.path)" % o, True), ("eq(%s.name,self.name)" % o, True)})], "HASH1", "eq on (path, name)", eq.node,
               "", "__eq__ is %s" % d)
     hs = A.fn(TI + "__hash__")
     r = [x for x in walk_local(hs.node) if isinstance(x, ast.Return)]
